@@ -323,6 +323,28 @@ func (sc *c12Scenario) Run(s *simrt.Sim) {
 		} else {
 			child.Close()
 		}
+		// the library's default Actor instance is a closed placeholder: a factory for New/Spawn; a message sent to
+		// it is dropped without blocking anybody; an actor spawned from it is independent, unregistered and working
+		def := fpgo.Actor.GetDefault()
+		if def == nil || !def.IsClosed() || (&fpgo.ActorDef[int]{}).GetDefault() != def {
+			sc.extra = append(sc.extra, Violation{Clause: "registry", Fingerprint: "default-actor", Detail: "Actor.GetDefault() is nil, not closed, or differs by receiver"})
+		} else {
+			s.Sleep(time.Nanosecond)
+			defGot := 0
+			dchild := def.Spawn(func(self *fpgo.ActorDef[interface{}], m interface{}) { defGot += m.(int) })
+			dsender := s.Go("default-actor-sender", func() {
+				h.Do("default-actor-sender", "Send-to-default", 1, func() (interface{}, error) { def.Send(1); return nil, nil })
+				h.Do("default-actor-sender", "Send", 7, func() (interface{}, error) { dchild.Send(7); return nil, nil })
+			})
+			if !s.WaitUntilTimeout(func() bool { return dsender.Done() && defGot == 7 }, time.Minute) {
+				sc.extra = append(sc.extra, Violation{Clause: "exactly-once", Fingerprint: "actor:child-of-default-actor-not-processing", Detail: fmt.Sprintf("Send to the closed default Actor blocked, or an actor spawned from it did not process its message (sender returned=%v, effect saw %d)", dsender.Done(), defGot)})
+			} else {
+				if dchild.GetParent() != nil || def.GetChild(dchild.GetID()) != nil {
+					sc.extra = append(sc.extra, Violation{Clause: "registry", Fingerprint: "spawn-on-default-actor", Detail: "Spawn on the closed default Actor registered the child"})
+				}
+				dchild.Close()
+			}
+		}
 	}
 	s.Sleep(time.Second)
 	sc.h = h
